@@ -28,9 +28,9 @@ Verdict(r) ==
                                THEN "ForeignSlotOverwritten" ELSE "TableUpdateWrong"
     [] r.kind = "r" -> \* a run of qmail-remote to one address: outcome = what the (scripted / faulted) connect did
                        LET x == AttemptP(Tab(r.tab), r.ip, r.now, r.pidbits, r.outcome)
-                       IN IF x.skipped # r.skipped THEN (IF r.skipped = 1 THEN "HealthyAddressSkipped" ELSE "TimedOutAddressNotSkipped")
+                       IN IF r.skipped # -1 /\ x.skipped # r.skipped THEN (IF r.skipped = 1 THEN "HealthyAddressSkipped" ELSE "TimedOutAddressNotSkipped")     \* (-1: not observable, no server)
                           ELSE IF x.tab # Tab(r.after) THEN "TableUpdateWrong"
-                          ELSE IF r.skipped = 1 /\ r.mr # "Z" THEN "SkippedAddressNotTemporaryFailure"
+                          ELSE IF x.skipped = 1 /\ r.mr # "Z" THEN "SkippedAddressNotTemporaryFailure"
                           ELSE IF r.outcome # "ok" /\ r.mr # "Z" THEN "ConnectTroubleNotTemporaryFailure"
                           ELSE ""
     [] OTHER -> "UnknownRecord"
